@@ -4,7 +4,7 @@
  *   THREADS            run: every context's OPs in its own thread, all threads concurrently (program order per context)
  *   RUN                run: all OPs in program order on one thread
  *   RESET              forget everything
- * ops: L load | S start_player | P play one frame | SPn set_position | NX | PV | RS restart | ST stop | E end_player | R release |
+ * ops: L load | S start_player | SA start_player with another rate / channel count / interpolation | P play one frame | SPn set_position | NX | PV | RS restart | ST stop | E end_player | R release |
  *      Mn channel mute toggle n | Vn XMP_PLAYER_VOLUME | In XMP_PLAYER_INTERP | L2 <path> (load another module: "L2:/path")
  * output after a run: per context "O <i> <k> <op> <ret> <digest>" for its k-th op (digest: FNV over return code, the frame's PCM and
  * xmp_frame_info position/time fields for P; module name/len for L; 0 otherwise), then "DONE"
@@ -30,6 +30,10 @@ static void do_op(struct cdecl *d, int idx, int k)
 		if (ret == 0) { struct xmp_module_info mi; xmp_get_module_info(d->c, &mi); h = vf_fnv(h, mi.mod->name, strlen(mi.mod->name)); h = vf_fnv(h, &mi.mod->len, sizeof(int)); h = vf_fnv(h, mi.md5, 16);
 			libxmp_set_random(&((struct context_data *)d->c)->rng, 1234); }
 	} else if (!strcmp(op, "S")) { ret = xmp_start_player(d->c, d->rate, d->format); if (ret == 0) xmp_set_player(d->c, XMP_PLAYER_INTERP, d->interp); }
+	else if (!strcmp(op, "SA")) {
+		/* start with ANOTHER output configuration than the context's own (used by the prior-history cycles) */
+		ret = xmp_start_player(d->c, d->rate == 44100 ? 48000 : 44100, d->format ^ XMP_FORMAT_MONO); if (ret == 0) xmp_set_player(d->c, XMP_PLAYER_INTERP, (d->interp + 1) % 3);
+	}
 	else if (!strcmp(op, "P")) {
 		ret = xmp_play_frame(d->c);
 		if (ret == 0) {
